@@ -43,7 +43,8 @@ from vsc.model.rand_info import RandInfo
 from vsc.model.rand_info_builder import RandInfoBuilder
 from vsc.model.variable_bound_model import VariableBoundModel
 from vsc.visitors.array_constraint_builder import ArrayConstraintBuilder
-from vsc.visitors.array_trim_visitor import ArrayTrimVisitor
+from vsc.visitors.array_trim_visitor import ArrayTrimVisitor,\
+    ArraySizeSaveVisitor
 from vsc.visitors.constraint_override_rollback_visitor import ConstraintOverrideRollbackVisitor
 from vsc.visitors.dist_constraint_builder import DistConstraintBuilder
 from vsc.visitors.model_pretty_printer import ModelPrettyPrinter
@@ -546,6 +547,9 @@ class Randomizer(RandIF):
             debug=0,
             lint=0,
             solve_fail_debug=0):
+        size_v = ArraySizeSaveVisitor()
+        for f in field_model_l:
+            f.accept(size_v)
         try:
             Randomizer._do_randomize(
                 randstate,
@@ -555,6 +559,11 @@ class Randomizer(RandIF):
                 debug,
                 lint,
                 solve_fail_debug)
+        except:
+            # Random-size lists keep the length they had before a 
+            # call that fails
+            size_v.restore()
+            raise
         finally:
             # Fields are only random for the duration of the call in 
             # which they participate, whether it succeeds or fails
